@@ -2,6 +2,7 @@ package loadbalancer
 
 import (
 	"fmt"
+	"net/http"
 	"net/http/httptest"
 	"reflect"
 	"strings"
@@ -187,6 +188,87 @@ func c05WRRFresh(r *vres.Report, maxN, maxW int) {
 	}
 	r.AddScenario(vres.Scenario{Name: "weighted_round_robin-fresh" + viaSuffix(), Engine: "H", Executions: cases, States: cases, Transitions: evals, Outcomes: outs.N(),
 		Bound: fmt.Sprintf("every weight vector in {0..%d, -1, -3}^n for n=1..%d; 3*sum(w) requests, every window of sum(w)", maxW, maxN), Exhaustive: true, Sample: sample,
+		Extra: map[string]interface{}{"wall_s": time.Since(start).Seconds()}})
+}
+
+// --- weighted_round_robin with weights of large magnitude. sum(w) requests cannot be run, but
+// the statement's bound can be checked on every prefix: from a fresh pool with every backend
+// eligible a backend is never more than 2 requests away from its proportional share. A
+// configuration that is refused (by config.Validate or by NewLoadBalancer) is not judged here.
+func c05WRRMagnitudes(r *vres.Report) {
+	start := time.Now()
+	var evals, cases int64
+	var outs vres.Outcomes
+	walph := []int{1, 3, 1<<31 - 1, 1 << 31, 1 << 32, 1 << 53, 1 << 62, 1<<63 - 1}
+	idx := 0
+	for n := 2; n <= 3; n++ {
+		total := 1
+		for i := 0; i < n; i++ {
+			total *= len(walph)
+		}
+		for code := 0; code < total; code++ {
+			idx++
+			if !vh.MyShard(idx) {
+				continue
+			}
+			ws := make([]int, n)
+			c := code
+			W := 0.0
+			for i := 0; i < n; i++ {
+				ws[i] = walph[c%len(walph)]
+				c /= len(walph)
+				W += float64(ws[i])
+			}
+			cases++
+			cfg := kitConfig(kitOpts{Strategy: "weighted_round_robin", N: n, Weights: ws})
+			if err := cfg.Validate(); err != nil {
+				outs.Add("refused")
+				continue
+			}
+			refused := false
+			var seq []int
+			vh.RunSeq(r, "C05/sequential", func(s *vrt.Sched) {
+				http.DefaultTransport = &stubRT{probe: true}
+				if lb, err := NewLoadBalancer(cfg); err != nil {
+					refused = true
+					return
+				} else {
+					lb.Stop()
+				}
+				k := newKitCfg(s, cfg)
+				for q := 0; q < 240; q++ {
+					i, _ := servedIndex(k, "10.0.0.1")
+					seq = append(seq, i)
+					evals++
+				}
+			})
+			if refused {
+				outs.Add("refused")
+				continue
+			}
+			outs.Add("served")
+			cnt := make([]float64, n)
+			for q, i := range seq {
+				if i < 0 {
+					c05Viol(r, "C05/weighted_round_robin/large-weights/not-served", fmt.Sprintf("weights %v: request %d was not served by any backend (sequence %v)", ws, q, seq[:q+1]), q, map[string]interface{}{"weights": ws})
+					break
+				}
+				cnt[i]++
+				bad := -1
+				for b := range cnt {
+					if share := float64(q+1) * float64(ws[b]) / W; cnt[b] > share+2.001 || cnt[b] < share-2.001 {
+						bad = b
+					}
+				}
+				if bad >= 0 {
+					c05Viol(r, "C05/weighted_round_robin/large-weights/share-out-of-bound", fmt.Sprintf("weights %v, all eligible, fresh pool: after %d requests backend %d has served %v, its proportional share is %.1f (bound: 2 requests); counts %v", ws, q+1, bad, cnt[bad], float64(q+1)*float64(ws[bad])/W, cnt), q, map[string]interface{}{"weights": ws})
+					break
+				}
+			}
+		}
+	}
+	r.AddScenario(vres.Scenario{Name: "weighted_round_robin-large-weights" + viaSuffix(), Engine: "H", Executions: cases, States: cases, Transitions: evals, Outcomes: outs.N(),
+		Bound: "every weight vector in {1, 3, 2^31-1, 2^31, 2^32, 2^53, 2^62, 2^63-1}^n for n=2..3 that the configuration layer accepts; 240 requests, every prefix within 2 requests of the proportional share", Exhaustive: true,
 		Extra: map[string]interface{}{"wall_s": time.Since(start).Seconds()}})
 }
 
@@ -517,6 +599,7 @@ func TestVerifC05(t *testing.T) {
 		c05WRRFresh(r, 3, 6)
 		c05LeastConn(r, 3)
 	}
+	c05WRRMagnitudes(r)
 	// the same contracts for strategies selected at run time instead of in the configuration
 	// (smaller pools): the distribution contract belongs to the strategy's name, not to the way
 	// it was selected
